@@ -220,14 +220,26 @@ def judge_cycle(case):
                 parent["child"] = child
         if kind == "self":
             link(a, a)
-        else:
+        elif kind == "two":
             link(a, b)
             link(b, a)
+        elif kind == "array-self":
+            # a cycle made of arrays only, where a nested value is expected (no mapping, hence no data-class level, on the cycle)
+            loop = []
+            loop.append(loop)
+            link(a, loop)
+        elif kind == "array-two":
+            inner = []
+            outer = [(inner,)]
+            inner.append(outer)
+            link(a, outer)
+        else:
+            raise HarnessError("bad cycle kind")
         COUNT[0] = 0
         mult = 3 ** d if shape in UNIONLIKE else 1    # known retry factor of the union stages (KF-C18-03)
         BUDGET[0] = 100 * ((d + 1) ** 2 + 8) * mult
         try:
-            out = oracle.outcome(N.__from__, a, backstop=20)
+            out = oracle.outcome(N.__from__, a, backstop=20 if not kind.startswith("array") else 6)
         except WorkBudget:
             out = ("perr", None)      # cut by the harness: reported through the work bound below
         finally:
@@ -337,6 +349,9 @@ def campaign(ctx):
             for cyc in ("self", "two"):
                 grid.append({"part": "cycle", "shape": shape, "max_depth": d, "cycle": cyc})
                 grid.append({"part": "cycle", "shape": shape, "max_depth": d, "cycle": cyc, "collect": True})
+            if d == 2:
+                for cyc in ("array-self", "array-two"):
+                    grid.append({"part": "cycle", "shape": shape, "max_depth": d, "cycle": cyc})
         for D in range(1, 6):
             for d in (1, 2, 3):
                 grid.append({"part": "depth", "shape": shape, "D": D, "max_depth": d, "positions": [POSITIONS[shape][-1]], "collect": True})
